@@ -30,7 +30,11 @@ class FakeRepo:
         return ParentsProvider(self.object_store)
 
 
-def _dag(eng, n, last=None):
+CLOCKS = [lambda i: i, lambda i: -i, lambda i: 0, lambda i: (0, 2, 1, 3, 2, 4, 3)[i], lambda i: (3, 1, 4, 1, 5, 9, 2)[i],
+          lambda i: (5, 0, 5, 0, 5, 0, 5)[i]]
+
+
+def _dag(eng, n, last=None, clocks=False):
     """symbolic DAG on n commits (edges only from later to earlier index => acyclic); the edge set
     is forked into concrete shapes, timestamps stay symbolic integers"""
     par = {}
@@ -44,7 +48,13 @@ def _dag(eng, n, last=None):
             if bit:
                 ps.append(i)
         par[j] = ps
-    ts = [eng.int(f"t{i}", -TMAX, TMAX) for i in range(n)]
+    if clocks:
+        # concrete clock patterns (forked by the solver) instead of fully symbolic timestamps: increasing, decreasing, all
+        # equal, two zig-zags, alternating
+        ck = CLOCKS[eng.choice("clock_pattern", len(CLOCKS))]
+        ts = [ck(i) for i in range(n)]
+    else:
+        ts = [eng.int(f"t{i}", -TMAX, TMAX) for i in range(n)]
     return par, ts
 
 
@@ -87,9 +97,9 @@ def _pick(eng, name, n, fixed):
     return fixed if fixed is not None else eng.choice(name, n)
 
 
-def h_lcas(eng, n=4, last=None, a=None):
+def h_lcas(eng, n=4, last=None, a=None, clocks=False):
     """_find_lcas(a,[b]) == set of maximal common ancestors, every DAG shape, symbolic timestamps"""
-    par, ts = _dag(eng, n, last)
+    par, ts = _dag(eng, n, last, clocks)
     a = _pick(eng, "a", n, a)
     b = eng.choice("b", n)
     got = G._find_lcas(lambda c: [ID(p) for p in par[int(c[:2], 16) - 1]], ID(a), [ID(b)],
@@ -170,7 +180,7 @@ def checks(tier):
     t = ("thorough",)
     P4 = [{"n": 4, "last": m} for m in range(8)]
     P4a = [{"n": 4, "last": m, "a": a} for m in range(8) for a in range(4)]
-    P5 = [{"n": 5, "last": m, "a": a} for m in range(16) for a in range(5)]
+    P5 = [{"n": 5, "last": m, "clocks": True} for m in range(16)]
     g = "dulwich.graph."
     return [
         KCheck("C13a.lcas", h_lcas, parts=[{"n": 2}, {"n": 3}] + P4a,
@@ -182,8 +192,10 @@ def checks(tier):
                pins=[(2 + 5 * 4 + 3, {"e1_0": True, "e2_0": False, "e2_1": True, "t0": 35, "t1": 19, "t2": 20, "t3": 19, "b": 2})],
                tiers=q),
         KCheck("C13a.lcas_5", h_lcas, parts=P5, encoded=[g + "_find_lcas"],
-               bounds="every DAG on 5 commits, symbolic timestamps", outside="> 5 commits", max_decisions=1200,
-               time_budget=6000, tiers=t),
+               bounds="every DAG on 5 commits and every pair, under 6 concrete clock patterns (increasing, decreasing, all equal, "
+                      "two zig-zags, alternating) forked by the solver; fully symbolic timestamps on 5 commits did not finish "
+                      "within hours (80 partitions of ~40 min) and are not claimed", outside="> 5 commits; other clock patterns on 5 commits",
+               max_decisions=1200, time_budget=6000, tiers=t),
         KCheck("C13b.can_fast_forward", h_graph_api, parts=[dict(p, api="ff") for p in [{"n": 3}] + P4a],
                encoded=[g + "can_fast_forward", g + "_find_lcas", "dulwich.repo.ParentsProvider.get_parents"],
                bounds="every DAG on 3..4 commits, every pair, symbolic timestamps; commits are real Commit objects in a dict store",
